@@ -125,6 +125,16 @@ func (e *Engine) VerifyFunc(con *Contract, workdir string, timeoutS int, all boo
 	}
 	if con.Unbound {
 		res.Notes = append(res.Notes, "contract no longer binds to the code (a clause does not type-check): unit not verified")
+		// forbidden call sites are a matter of the source text alone: they are still reported
+		for _, c := range con.Forbids {
+			if fn != nil && len(e.callSitePositions(fn, c.Site)) > 0 {
+				res.Obls = append(res.Obls, &Obligation{Name: key + "#forbid[" + c.Label + "@" + c.Site + "]", Kind: "forbid", Tags: c.Tags, Goal: TFalse,
+					Status: "sat", Solver: "syntactic", Unit: key, Pos: e.posString(e.callSitePositions(fn, c.Site)[0])})
+			}
+		}
+		if len(res.Obls) > 0 {
+			return res
+		}
 		res.Trusted = true
 		return res
 	}
